@@ -155,6 +155,8 @@ def tree_spell(r, t):
     a, b = tree_spell(r, t[2]), tree_spell(r, t[3])
     if a is None and t[2][0] != "null" or b is None and t[3][0] != "null":
         return None
+    if t[2][0] == "bin" and t[2][1] == op and isinstance(a, dict) and list(a) == [op] and r.random() < 0.6:
+        return {op: list(a[op]) + [b]}
     return {op: [a, b]}
 
 
@@ -205,6 +207,10 @@ def make_case(t, spec, probes=PROBES):
 
 
 CORPUS = [
+    ("bin", "xor", ("leaf", "Value", "gt", [1], {}), ("leaf", "Value", "gt", [1], {})),
+    ("bin", "xor", ("bin", "xor", ("leaf", "Value", "gt", [1], {}), ("leaf", "Value", "lt", [4], {})), ("leaf", "Value", "gt", [1], {})),
+    ("leaf", "Value", "equal_to", [{"value": 5}], {}),
+    ("leaf", "Value", "keys_contain", [{"key": "a"}], {}),
     ("leaf", "Value", "keys_contain_N_of", [1, ["a"]], {}),
     ("leaf", "Value", "keys_contain_at_least_N_of", [], {"N": 1, "keys": ["a", "b"]}),
     ("leaf", "Value", "not_in_range", [1, 5], {}),
@@ -257,6 +263,14 @@ def generate(rng, n, tier):
             if cls.endswith("DataType") and rng.random() < 0.8:
                 call = (cls, rng.choice(["equal_to", "eq", "not_equal_to"]), [rng.choice(TYPE_POOL)], {})
             t = ("leaf", call[0], call[1], list(call[2]), dict(call[3]))
+        if t[0] == "bin":
+            t = terms.repeat_operands(rng, t)
+        elif t[0] == "leaf" and rng.random() < 0.06:
+            # a literal mapping argument whose only key is spelled like the parameter it is given for
+            canon = CANON.get(t[2], t[2])
+            params = SIGS.get(canon, ([], False, False))[0]
+            if len(params) == 1 and not t[1].endswith("DataType"):
+                t = ("leaf", t[1], t[2], [{params[0]: g.atom()}], {})
         sp = tree_spell(rng, t)
         if sp is None:
             continue
